@@ -40,7 +40,9 @@ SrvObserved(x) ==
      shape |-> /\ Len(lu) = 1 /\ lu[1].ltoks = <<"websocket">>
                /\ Len(lc) = 1 /\ "upgrade" \in Range(lc[1].ltoks)
                /\ Len(la) = 1 /\ Len(lp) <= 1 /\ (Len(lp) = 1 => Len(lp[1].toks) = 1)
-               /\ x.proto = "HTTP/1.1" /\ x.isserver,
+               /\ x.proto = "HTTP/1.1" /\ x.isserver
+               \* Config.Header fields are added, the mandatory ones are not overridden (they occur once, see above)
+               /\ Hd.cfg.hdr => FirstLine(hs, "x-extra").v = "1",
      handler |-> x.handler, extra |-> x.extra, closed |-> x.closed, first |-> x.first]
 
 THead(h) == [line |-> h.line, hdrs |-> h.hdrs, tail |-> h.tail]
@@ -88,6 +90,17 @@ TBadVersion ==
     /\ bad' = IF Line.res = "badversion" /\ Line.wrote = 0 THEN <<>> ELSE <<"config-version", Line.res>>
     /\ ph' = "done" /\ UNCHANGED <<key, seen>>
 
+\* DialConfig without a usable configuration: the error names what is missing, and can be printed
+\* (which of several applicable errors is reported is not fixed)
+DialAllowed(x) == \/ ~x.loc /\ x.res = "location"
+                  \/ ~x.origin /\ x.res = "origin"
+                  \/ x.loc /\ x.origin /\ x.scheme \notin {"ws", "wss"} /\ x.res = "scheme"
+TDial ==
+    /\ Line.e = "dial" /\ Hd.kind = "dial"
+    /\ bad' = IF ~DialAllowed(Line) THEN <<"dial-error", Line.res>>
+              ELSE IF Line.text = "panic" THEN <<"dial-error-text-panics", Line.res>> ELSE <<>>
+    /\ UNCHANGED <<key, seen, ph>>
+
 \* every handshake carries a fresh nonce: 16 random bytes in base64, never one used before
 TNonce ==
     /\ Line.e = "nonce" /\ Hd.kind = "nonces"
@@ -99,7 +112,7 @@ TNonce ==
 TNext ==
     /\ l <= Meta.ends[cur]
     /\ l' = l + 1 /\ cur' = cur
-    /\ (TServer \/ TRequest \/ TResponse \/ TAuthority \/ TBadVersion \/ TNonce)
+    /\ (TServer \/ TRequest \/ TResponse \/ TAuthority \/ TBadVersion \/ TNonce \/ TDial)
 
 TSpec == TInit /\ [][TNext]_tvars
 
@@ -114,6 +127,7 @@ CoverKey(x) ==
       [] x.e = "cauth" -> "client/authority"
       [] x.e = "cver"  -> "client/config-version"
       [] x.e = "nonce" -> "client/nonce"
+      [] x.e = "dial"  -> "client/dial-refused"
       [] OTHER -> "other/" \o x.e
 Cover ==
     LET idx == {i \in 2..Len(Trace) : Trace[i].e # "head"}
